@@ -251,3 +251,65 @@ func popEvents(w *World, fn *ssa.Function, pops map[*ssa.Function]bool) (evs []p
 	}
 	return evs, ok
 }
+
+// argInstance is one value a parameter takes: the argument of a static call of
+// the function (followed up through the caller's own parameters).
+type argInstance struct {
+	caller *ssa.Function
+	site   ssa.CallInstruction
+	val    ssa.Value
+}
+
+// paramInstances lists, for parameter p of f, the arguments of all static
+// calls of f among fns.  ok is false when f is also used as a value (its
+// callers are then not all known) or has no caller.
+func paramInstances(fns []*ssa.Function, p *ssa.Parameter, depth int) (out []argInstance, ok bool) {
+	f := p.Parent()
+	idx := -1
+	for i, q := range f.Params {
+		if q == p {
+			idx = i
+		}
+	}
+	if idx < 0 || depth > 3 {
+		return nil, false
+	}
+	for _, g := range fns {
+		for _, b := range g.Blocks {
+			for _, in := range b.Instrs {
+				// f as a value: callers unknown
+				for _, op := range in.Operands(nil) {
+					if *op != ssa.Value(f) {
+						continue
+					}
+					ci, isCall := in.(ssa.CallInstruction)
+					if !isCall || ci.Common().Value != ssa.Value(f) {
+						return nil, false
+					}
+				}
+				ci, isCall := in.(ssa.CallInstruction)
+				if !isCall || ci.Common().StaticCallee() != f || idx >= len(ci.Common().Args) {
+					continue
+				}
+				a := ci.Common().Args[idx]
+				for {
+					if ct, isCT := a.(*ssa.ChangeType); isCT {
+						a = ct.X
+						continue
+					}
+					break
+				}
+				if q, isParam := a.(*ssa.Parameter); isParam {
+					sub, okSub := paramInstances(fns, q, depth+1)
+					if !okSub {
+						return nil, false
+					}
+					out = append(out, sub...)
+					continue
+				}
+				out = append(out, argInstance{g, ci, a})
+			}
+		}
+	}
+	return out, len(out) > 0
+}
